@@ -830,7 +830,7 @@ func RunSliceAndClosureWrites(c *Ctx, pkgs []string, allowParam []allowSite) {
 						if ix, ok := unparen(l).(*ast.IndexExpr); ok {
 							if id, ok := unparen(ix.X).(*ast.Ident); ok {
 								if org, ok := tainted[info.Uses[id]]; ok {
-									key := fi.Root().Name + "|" + types.ExprString(ix)
+									key := fi.Root().Name + "|" + canonExpr(fi, ix, c.P.Fset)
 									why, okAllowed := allow[key]
 									if okAllowed {
 										used[key] = true
